@@ -274,7 +274,7 @@ def gen_set(fl, rnd, batch):
 
 def run(ctx):
     fl = import_library()
-    nsets = ctx.scale(1200, 20_000)
+    nsets = ctx.scale(1200, 100_000)
     ctx.rule = (
         f"every WeightedAverage/WeightedSum.defuzzify, Aggregated.grouped_terms and activation_degree call observed. Workload: {nsets} fuzzy "
         "outputs of 0-6 activations over 1-4 Constant/Linear/Function, monotonic or non-monotonic terms with repetitions, every aggregation "
